@@ -293,7 +293,9 @@ ARG_WORDS = ["amount", "to", "from", "owner", "id", "a", "b", "x", "y", "value",
              # names of parameters / locals of the generated dispatch, helper and proxy functions
              "contract", "ctx", "msg", "deps", "env", "info", "querier", "funds", "contract_addr",
              # keyword-dodging names: the trailing underscore is part of the key
-             "type_", "ref_", "match_", "amount_"]
+             "type_", "ref_", "match_", "amount_",
+             # names that are not snake_case: the key is the name as written
+             "tokenId", "startAfter", "royaltyBps"]
 RAW_ARGS = ["r#type", "r#in", "r#match", "r#ref"]
 
 
